@@ -64,6 +64,7 @@ func (t *Transcoder) ServeHTTP(writer http.ResponseWriter, request *http.Request
 
 	if t.unknownHandler != nil && errors.Is(err, errNotFound) {
 		op.request.Header = op.originalHeaders // restore headers, just in case initialization removed keys
+		op.request.ContentLength = op.contentLen
 		verifPoint("serve:unknown")
 		t.unknownHandler.ServeHTTP(writer, op.request)
 		return
@@ -80,6 +81,7 @@ func (t *Transcoder) ServeHTTP(writer http.ResponseWriter, request *http.Request
 		// No transformation needed. But we do need to restore the original headers first
 		// since extracting request metadata may have removed keys.
 		op.request.Header = op.originalHeaders
+		op.request.ContentLength = op.contentLen
 		verifPoint("serve:passthrough")
 		op.methodConf.handler.ServeHTTP(writer, op.request)
 		return
